@@ -18,6 +18,8 @@ Obs0 == [wf |-> "null", seq |-> << >>, staged |-> << >>, ctxs |-> << >>, routes 
          ptr |-> << >>, errs |-> << >>, hasout |-> FALSE, out |-> << >>, reruns |-> << >>,
          infl |-> << >>, dorm |-> << >>, q |-> FALSE, offers |-> << >>]
 
+Own(t) == {Batch[t].own[i] : i \in 1..Len(Batch[t].own)}
+Known(t) == {Batch[t].known[i] : i \in 1..Len(Batch[t].known)}
 Node(t, n)  == Batch[t].nodes[n]
 ObsAt(t, n) == IF n = 0 THEN Obs0 ELSE Node(t, n).obs
 KidsOf(t, n) == IF n = 0 THEN Batch[t].roots ELSE Node(t, n).kids
@@ -38,9 +40,12 @@ Next == /\ bad = {}
              IN /\ nd' = k
                 /\ tr' = tr
                 /\ h' = HLatch(h1, step)
-                /\ bad' = fs
+                \* the descent is cut by a false clause of the checked property, and below any step
+                \* where a known finding fired (cascade policy)
+                /\ bad' = {c \in fs : c[1] \in Own(tr)} \cup
+                          (IF fs = {} THEN {} ELSE {<<"KF", x>> : x \in Signatures(d, h, h1, prev, step) \cap Known(tr)})
                 /\ \A c \in fs : PrintT(<<"V", Batch[tr].tid, k, c[2]>>)
-                /\ fs # {} => \A s \in Signatures(d, h, h1, prev, step) : PrintT(<<"K", Batch[tr].tid, k, s>>)
+                /\ fs # {} => \A s \in Signatures(d, h, h1, prev, step) \cap Known(tr) : PrintT(<<"K", Batch[tr].tid, k, s>>)
 
 Spec == Init /\ [][Next]_vars
 =============================================================================
